@@ -15,8 +15,8 @@ var comparatorAudit = map[string]struct {
 	stable bool
 	why    string
 }{
-	"x/avs/keeper.Keeper.GroupTasksByIDAndAddress":           {false, "compares OperatorAddress, unique within a (task contract, task id) group: one result per operator per task"},
-	"x/dogfood/keeper.Keeper.IterateBondedValidatorsByPower": {true, "stable sort by power over the KV-ordered validator list: ties keep store order"},
+	"x/avs/keeper.Keeper.GroupTasksByIDAndAddress":            {false, "compares OperatorAddress, unique within a (task contract, task id) group: one result per operator per task"},
+	"x/dogfood/keeper.Keeper.IterateBondedValidatorsByPower":  {true, "stable sort by power over the KV-ordered validator list: ties keep store order"},
 	"x/feedistribution/keeper.Keeper.AllocateTokensToStakers": {false, "orders stakers by power only; every consumer writes a per-staker key and the remainder is order-independent (audited with C08)"},
 }
 
@@ -624,7 +624,6 @@ func runC06(r *Run) {
 		}
 	}
 }
-
 
 // resAppend: `res = append(res, T{Key: …, Power: p})` -> (true, p)
 func resAppendPower(as *ast.AssignStmt) (ast.Expr, bool) {
